@@ -28,8 +28,7 @@ EVID = os.path.join(VERIF, "evidence")
 ORACLE = os.path.join(LEAN, ".lake", "build", "bin", "oracle")
 ALLOWED_AXIOMS = {"propext", "Classical.choice", "Quot.sound"}
 
-GOENV = dict(os.environ, GOFLAGS="-mod=mod", GOPROXY="off", GOSUMDB="off", GOTOOLCHAIN="local",
-             CGO_ENABLED="0")
+GOENV = dict(os.environ, GOFLAGS="-mod=mod", GOPROXY="off", GOSUMDB="off", GOTOOLCHAIN="local")
 
 
 def log(*a):
@@ -63,6 +62,7 @@ def repo_files():
 def tree_hash():
     fs = repo_files()
     fs += glob.glob(os.path.join(VERIF, "harness", "*.go"))
+    fs += glob.glob(os.path.join(VERIF, "harness", "rt", "*.go"))
     fs += glob.glob(os.path.join(VERIF, "tools", "*", "*.go"))
     return sha_files(fs)
 
@@ -253,7 +253,7 @@ def build_harness():
     scratch = tempfile.mkdtemp(prefix="verif-build-")
     try:
         rep = {}
-        for f in glob.glob(os.path.join(VERIF, "harness", "*.go")):
+        for f in glob.glob(os.path.join(VERIF, "harness", "*.go")) + glob.glob(os.path.join(VERIF, "harness", "rt", "*.go")):
             rep[os.path.join(REPO, "rpc", os.path.basename(f))] = f
         instr = os.path.join(VERIF, "tools", "instrument")
         if os.path.isdir(instr):
